@@ -325,6 +325,9 @@ def untyped_regions(ctx, n):
         if rng.random() < 0.4:
             loose['recognize'] = [('rmapping',)]
         spec.append(loose)
+        # parameters whose names start with an underscore are attributes like any other
+        spec.append(plain('Under', [P('a', ('int',)), P('_payload', rng.choice([('any',), None]), default=None),
+                                    P('_count', ('int',), default=0)], extra=rng.random() < 0.5))
         tags = ['!Kind', '!Word', '!Thing', '!Open', '!Doc', '!Path', '!Nowhere', '!!set', '!!binary',
                 '!!python/name:os.system', '!!timestamp', '!!str', '!!int']
         body = G.gen_any(rng, 3)
@@ -351,11 +354,15 @@ def untyped_regions(ctx, n):
             else:
                 body = G.replace_at(body, p, lambda d: G.with_tag(d, tag) if d[0] in ('s', 'q', 'm') else d)
         shape = rng.choice(['any', 'payload', 'extra', 'list', 'dict', 'dashed-any', 'dup-any', 'dashed-any',
-                            'extra-literal'])
+                            'extra-literal', 'underscore-any'])
         if shape == 'extra-literal':
             # a key spelt exactly like the catch-all parameter
             t, doc = ('cls', 'Open'), ('m', [(S('a'), S('1')), (S('_yatiml_extra'), body)] +
                                         ([(S('other'), S('2'))] if rng.random() < 0.5 else []), None)
+        elif shape == 'underscore-any':
+            t, doc = ('cls', 'Under'), ('m', [(S('a'), S('1')), (S('_payload'), body)] +
+                                        ([(S('_count'), rng.choice([S('3'), S('x'), ('s', '3', False, '!Thing')]))]
+                                         if rng.random() < 0.5 else []), None)
         elif shape == 'dashed-any':
             t, doc = ('cls', 'Loose'), ('m', [(S('a'), S('1')), (S('some-thing'), body)], None)
         elif shape == 'dup-any':
